@@ -29,6 +29,12 @@ from .base import XPathToken
 from .tokens import ValueToken
 
 
+# Optional whitespaces and comments (also multiline, with one level of nesting)
+# that can be put between a function name and its opening parenthesis.
+_COMMENT = r'\(\:(?:[^:(]|\:(?!\))|\((?!\:)|\(\:(?:[^:]|\:(?!\)))*\:\))*\:\)'
+COMMENTS_LOOKAHEAD = rf'\s*(?:{_COMMENT}\s*)*'
+
+
 class XPathFunction(XPathToken):
     """
     A token for processing XPath functions.
@@ -36,7 +42,7 @@ class XPathFunction(XPathToken):
     __name__: str
     _qname: Optional[QName] = None
     pattern = r'(?<!\$)\b[^\d\W][\w.\-\xb7\u0300-\u036F\u203F\u2040]*' \
-              r'(?=\s*(?:\(\:.*\:\))?\s*\((?!\:))'
+              rf'(?={COMMENTS_LOOKAHEAD}\((?!\:))'
 
     sequence_types: ta.SequenceTypesType = ()
     "Sequence types of arguments and of the return value of the function."
